@@ -127,6 +127,36 @@ class ExprBuilder:
         self._cache[l] = e
         return e
 
+    def vec_literal(self, op):
+        """`vec![a, b, c]` expands to Box::new_uninit + a store of the array through the box pointer +
+        box_assume_init_into_vec_unsafe; recover ("agg", "vec", elems)"""
+        if op.kind not in ("copy", "move") or op.place[1]:
+            return None
+        b = self.body
+        box = op.place[0]
+        # follow `x = move y` chains back to the new_uninit call result
+        seen = set()
+        while box not in seen:
+            seen.add(box)
+            ds = [d for d in b.defs.get(box, []) if d[2] == "whole"]
+            if len(ds) != 1 or ds[0][1] == "term":
+                break
+            s = b.blocks[ds[0][0]].stmts[ds[0][1]]
+            if s.rv.kind == "use" and s.rv.ops[0].kind in ("copy", "move") and not s.rv.ops[0].place[1]:
+                box = s.rv.ops[0].place[0]
+            else:
+                break
+        # pointer locals derived from the box
+        ptrs = set()
+        for bi, si, s in b.iter_stmts():
+            if s.rv is not None and s.rv.kind == "cast" and s.rv.ops[0].kind in ("copy", "move") and s.rv.ops[0].place[0] in seen | {box}:
+                ptrs.add(s.place[0])
+        for bi, si, s in b.iter_stmts():
+            if s.place is not None and s.place[0] in ptrs and s.place[1] and s.place[1][0] == "*" and s.rv is not None \
+                    and s.rv.kind == "agg" and s.rv.agg == "array":
+                return ("agg", "vec", tuple(self.operand(o, 2) for o in s.rv.ops))
+        return None
+
     def init_expr(self, l):
         """the (single) whole-definition expression of a local even if it is a phi because of
         mutable borrows; None if it has several whole definitions"""
@@ -251,6 +281,10 @@ class ExprBuilder:
             return ("un", "Not", args[0])
         if path in LEN_CALLS and len(args) == 1:
             return ("len", args[0])
+        if path is not None and path.endswith("box_assume_init_into_vec_unsafe") and len(t.args) == 1:
+            v = self.vec_literal(t.args[0])
+            if v is not None:
+                return v
         if path in OP_CALLS and len(args) == 2:
             return ("bin", OP_CALLS[path], args[0], args[1])
         if path == "std::ops::Neg::neg" and len(args) == 1:
